@@ -1089,3 +1089,44 @@ theorem derived_tables_exist {w : Nat} {en : List Pair} {faces : List (List Int)
   exact ⟨_, hfe, hef, rfl⟩
 
 end Ems.Mesh
+
+namespace Ems.Mesh
+
+/-! ### unfolding the dataset-level glue -/
+
+theorem topoBase_edgeTables {ds : DS} {nb : Option (List Pair)} {q : Quirks} {b : TopoIn}
+    (h : ds.topoBase nb q = .ok b) :
+    (b.edgeNode = match ds.validEdgeVar? q "edge_node_connectivity", ds.edgeDim with
+      | some v, .ok ed => some (ds.decode q v ed)
+      | _, _ => none) ∧
+    (b.edgeFace = match ds.validEdgeVar? q "edge_face_connectivity", ds.edgeDim with
+      | some v, .ok ed => some (ds.decode q v ed)
+      | _, _ => none) := by
+  simp only [DS.topoBase, bind, Except.bind] at h
+  split at h
+  · simp at h
+  · split at h
+    · simp at h
+    · simp only [pure, Except.pure, Except.ok.injEq] at h
+      subst h
+      exact ⟨rfl, rfl⟩
+
+theorem topoIn_eq {ds : DS} {nb : Option (List Pair)} {q : Quirks} {t : TopoIn}
+    (h : ds.topoIn nb q = .ok t) :
+    ∃ b, ds.topoBase nb q = .ok b ∧ t =
+      { b with
+        faceEdge := (match ds.faceEdgeValid b, ds.validFaceVar? "face_edge_connectivity", ds.faceDim with
+          | .error e, _, _ => some (.error e)
+          | .ok true, some v, .ok fd => some (ds.decode q v fd)
+          | _, _, _ => none),
+        faceFace := (match ds.validFaceVar? "face_face_connectivity", ds.faceDim with
+          | some v, .ok fd => some (ds.decode q v fd)
+          | _, _ => none) } := by
+  simp only [DS.topoIn, bind, Except.bind] at h
+  split at h
+  · simp at h
+  · rename_i b hb
+    simp only [pure, Except.pure, Except.ok.injEq] at h
+    exact ⟨b, hb, h.symm⟩
+
+end Ems.Mesh
